@@ -156,6 +156,32 @@ func (s *Schema) CtorsOf(t string) []*Decl {
 	return r
 }
 
+// Closed: every named type is declared in the schema itself and no field is anonymous (`_`).
+func (s *Schema) Closed() bool {
+	decl := map[string]bool{}
+	for _, d := range s.Decls {
+		decl[d.Type] = true
+	}
+	var ok func(t *Ty) bool
+	ok = func(t *Ty) bool {
+		if t == nil {
+			return true
+		}
+		if t.Kind == KNamed && !decl[t.Name] {
+			return false
+		}
+		return ok(t.A) && ok(t.B)
+	}
+	for _, d := range s.Decls {
+		for _, f := range d.Fields {
+			if f.Name == "_" || !ok(f.Ty) {
+				return false
+			}
+		}
+	}
+	return true
+}
+
 func (s *Schema) TypeNames() []string {
 	var r []string
 	seen := map[string]bool{}
@@ -269,7 +295,7 @@ func (p *tparser) ty() (*Ty, error) {
 		return &Ty{Kind: KBool}, nil
 	case w == "Coins" || w == "Grams":
 		return &Ty{Kind: KCoins}, nil
-	case w == "MsgAddress":
+	case w == "MsgAddress" || w == "MsgAddressInt" || w == "MsgAddressExt":
 		return &Ty{Kind: KMsgAddr}, nil
 	case w == "#":
 		return &Ty{Kind: KNat, N: 32, Name: "#"}, nil
